@@ -306,6 +306,18 @@ func threadOne(fn *ssa.Function) bool {
 				case IsNilConst(x.X):
 					other = x.Y
 				default:
+					// comparison of a phi of integer constants (a status code returned by an expanded
+					// helper) with an integer constant
+					if kx, okx := ConstInt(resolve(x.X, i)); okx {
+						if ky, oky := ConstInt(resolve(x.Y, i)); oky {
+							if _, isStr := ConstString(x.Y); !isStr {
+								if (kx == ky) == (x.Op == token.EQL) {
+									return yes
+								}
+								return no
+							}
+						}
+					}
 					// comparison with the empty string
 					var sv ssa.Value
 					if cs, isC := ConstString(x.Y); isC && cs == "" {
